@@ -111,6 +111,28 @@ def gen_project(r, npkgs=None, features=None):
     return proj
 
 
+CLAMP_EPOCH = 1000000000
+
+
+def add_clamps(proj):
+    """reproducible-build style scripts: some build / package scripts set the time stamp of their manifest to a fixed
+    date (`touch -d @<epoch>`) after writing it.  Decided by a hash of the generated project, not by the rng: the
+    random streams of all existing histories stay what they were.  proj["clamp"] tells whether a clamp sits where an
+    in-place rewrite of equal size can happen below an otherwise unchanged consumer (build step of a package with
+    dependencies, package step of a dependency)."""
+    h = hashlib.sha1(json.dumps(proj, sort_keys=True).encode()).digest()
+    names = list(proj["pkgs"])
+    useful = False
+    for i, name in enumerate(names):
+        pkg = proj["pkgs"][name]
+        pkg["bclamp"] = h[i % 8] % 5 < 2
+        pkg["pclamp"] = h[8 + i % 8] % 4 == 0
+        if (pkg["bclamp"] and pkg["deps"]) or (pkg["pclamp"] and i > 0):
+            useful = True
+    proj["clamp"] = useful
+    return proj
+
+
 EDIT_KINDS = ["xenv", "cotool", "bscript", "pscript", "coscript", "var-value", "var-list", "dep-add", "dep-remove", "provide", "tool-use",
               "tool-path", "src-modify", "src-add", "src-delete", "define", "class", "env", "revert", "codet",
               "import-url", "noop"]
@@ -226,6 +248,22 @@ def edit(r, proj, history, kinds=None):
                     continue
                 del files[r.choice(cands)]
             return p, [kind, name]
+        if kind == "src-samesize":
+            # (only on request, not in EDIT_KINDS) a source file of a *dependency* gets another content of the same size:
+            # it reaches the consumers through the dependency's result only, their own checkouts and variant ids stay
+            cands = [n_ for n_ in names[1:] if p["pkgs"][n_]["co"] and p["pkgs"][n_]["co"]["import"]] or \
+                    [n_ for n_ in names if p["pkgs"][n_]["co"] and p["pkgs"][n_]["co"]["import"]]
+            if not cands:
+                continue
+            n_ = r.choice(cands)
+            files = p["pkgs"][n_]["co"]["files"]
+            fns = [fn for fn in sorted(files) if not fn.endswith(".id") and files[fn]]
+            if not fns:
+                continue
+            fn = r.choice(fns)
+            t = files[fn]
+            files[fn] = t[:-1] + (str((int(t[-1]) + r.randrange(1, 10)) % 10) if t[-1].isdigit() else ("y" if t[-1] == "x" else "x"))
+            return p, [kind, n_, fn, files[fn]]
         if kind == "import-url" and pkg["co"] and pkg["co"]["import"]:
             pkg["co"]["url"] = "src/" + name + ("" if pkg["co"]["url"].endswith("_alt") else "_alt")
             return p, [kind, name]
@@ -334,12 +372,14 @@ def render_recipe(name, pkg, proj, is_root):
     rec["buildScript"] = (DUMP_FN + "OUT=m\n: > \"id-%s-%d\"\necho \"B %s %d ids:$(echo id-*)\" > $OUT\n" % (name, pkg["bid"], name, pkg["bid"])
                           + _hook("build", name)
                           + "{\n" + _vars(set(bvars) | set(cls_vars)) + tool_lines
-                          + 'for a in "$@"; do echo "A"; dump "$a"; done\n} >> $OUT\n')
+                          + 'for a in "$@"; do echo "A"; dump "$a"; done\n} >> $OUT\n'
+                          + ("touch -d @%d \"$OUT\"\n" % CLAMP_EPOCH if pkg.get("bclamp") else ""))
     pvars = sorted(set(pkg["pvars"]))
     if pvars:
         rec["packageVars"] = pvars
     rec["packageScript"] = (DUMP_FN + "PRE=\"$(echo *)\"\nOUT=m\necho \"P %s %d pre:$PRE\" > $OUT\n" % (name, pkg["pid"]) + _hook("package", name)
-                            + "{\n" + _vars(pvars) + 'dump "$1"\n} >> $OUT\n')
+                            + "{\n" + _vars(pvars) + 'dump "$1"\n} >> $OUT\n'
+                            + ("touch -d @%d \"$OUT\"\n" % CLAMP_EPOCH if pkg.get("pclamp") else ""))
     return _yaml(rec)
 
 
